@@ -82,6 +82,7 @@ type Frame struct {
 	cellMeta  map[string]*Val
 	cellVal   map[string]string
 	closureBind map[string]*Val
+	callerFrame *Frame // for contract frames: the frame at whose call site the contract is applied
 	boxed     map[string]*Val
 	rangeSrc  map[*ssa.Range]ssa.Value
 	seenComp  map[*ssa.Range]string
